@@ -892,7 +892,7 @@ fn apply_xml_edit(file: &mut Vec<u8>, op: u8, which: u32, arg: u32) -> bool {
         return false;
     }
     let mut k = opens[which as usize % opens.len()];
-    if op % 14 == 12 && (arg >> 20) & 1 == 1 {
+    if (op % 14 == 12 || op % 14 == 5) && (arg >> 20) & 1 == 1 {
         // Duplicating under another type is aimed at the elements whose value is
         // resolved in a second pass (referents, shared strings) half of the time.
         let deferred: Vec<usize> = opens.iter().copied().filter(|&i| tags[i].name == "Ref" || tags[i].name == "SharedString").collect();
@@ -2141,7 +2141,7 @@ impl Engine for IoSim {
 
     fn scripted(&self, _property: &str, thorough: bool) -> u64 {
         let _ = thorough;
-        98
+        116
     }
 
     fn generate(&self, run_seed: u64, index: u64, _property: &str, thorough: bool) -> Value {
@@ -2270,6 +2270,39 @@ impl Engine for IoSim {
                         },
                     },
                     scenario: Scenario::Damage { edits: vec![Edit::Xml { op: 12, which, arg }], plan: benign.clone() },
+                })
+            }
+            // The same instance; the `name` attribute of each referent / shared-string
+            // element replaced by six other texts (a property the database does not know).
+            98..=115 => {
+                let k = (index - 98) as u32;
+                let which = k % 3;
+                let arg = (1u32 << 20) + 7 * (k / 3);
+                Some(IoTrace {
+                    format: Format::Xml,
+                    workload: Workload::Dom {
+                        tree: NodeSpec {
+                            class: "Model".into(),
+                            name: "m".into(),
+                            props: vec![("PrimaryPart".into(), ValSpec::Ref(RefT::Node(1)))],
+                            children: vec![
+                                NodeSpec { class: "Part".into(), name: "p".into(), props: vec![], children: vec![] },
+                                NodeSpec {
+                                    class: "MeshPart".into(),
+                                    name: "mp".into(),
+                                    props: vec![("PhysicalConfigData".into(), ValSpec::Shared(b"rbxsim shared".to_vec()))],
+                                    children: vec![],
+                                },
+                                NodeSpec {
+                                    class: "ObjectValue".into(),
+                                    name: "ov".into(),
+                                    props: vec![("Value".into(), ValSpec::Ref(RefT::Node(0)))],
+                                    children: vec![],
+                                },
+                            ],
+                        },
+                    },
+                    scenario: Scenario::Damage { edits: vec![Edit::Xml { op: 5, which, arg }], plan: benign.clone() },
                 })
             }
             _ => None,
